@@ -592,6 +592,14 @@ func findHeaderOffset(data io.ReaderAt, size int64) (int64, error) {
 }
 
 func (r *Reader) scannerFrom(pos int64, canObjStm bool) (*scanner, error) {
+	// Offsets come from the file (cross-reference entries, /XRefStm) and are
+	// shifted by the header offset: the sum may have wrapped around, and a
+	// section reader that starts at a large negative offset panics on Read.
+	if pos < 0 {
+		return nil, &MalformedFileError{
+			Err: fmt.Errorf("invalid file offset %d", pos),
+		}
+	}
 	getInt := safeGetInteger(lengthGetter{r}, canObjStm)
 	sr := io.NewSectionReader(r.r, pos, r.size-pos)
 	s := newScanner(sr, getInt, r.enc)
